@@ -11,6 +11,10 @@
 // cluster was driven into the state class (and also handed to handleMsg directly);
 // pi_prop = no failure value from the state-machine side, RoundState projection unchanged
 // where the specification says stutter, the cluster still commits the next height.
+// The target writes its real file WAL (consensus.NewWAL); message size is a lattice dimension
+// (the reactor's limit, one byte less, one byte more); after the peer's input the target is
+// driven through the model's own steps (round changes by timeouts, round skips, the commit, the
+// next height's first round - follow.go) with the invariant still "always running".
 package c16
 
 import (
@@ -37,6 +41,9 @@ func run(c *core.Ctx) {
 			fmt.Fprintln(os.Stderr, "bad job:", err)
 			os.Exit(3)
 		}
+		if j.WalDir != "" {
+			walDirRoot = j.WalDir
+		}
 		switch j.Kind {
 		case "class":
 			classChild(c, j)
@@ -51,13 +58,15 @@ func run(c *core.Ctx) {
 	}
 	o := c.Out()
 	o.Level = "model_checking"
-	o.Rule = "behaviour = one exported (state class, model state, message) pair of PeerInput instantiated with concrete boundary values and delivered to a real node in that state class through ConsensusReactor.Receive + peerMsgQueue (peer bookkeeping untouched / announced) and directly to handleMsg; non-trivial = the message is decodable and deviates from the valid base message in at least one field, or changes the RoundState; distinct = distinct (class, model state, abstract message)"
+	o.Rule = "behaviour = one exported (state class, model state, message) pair of PeerInput instantiated with concrete boundary values (sizes: the reactor's limit -1 / 0 / +1 byte) and delivered to a real node in that state class (real file WAL) through ConsensusReactor.Receive + peerMsgQueue (peer bookkeeping untouched / announced) and directly to handleMsg, followed - after every state-changing delivery and every batch of deliveries that changed nothing - by one of the model's own-step paths of the node (Start / Advance / Skip up to two round changes, Commit, Start of the next height) on the real target; non-trivial = the message is decodable and deviates from the valid base message in at least one field, or changes the RoundState; distinct = distinct (class, model state, abstract message)"
 	o.Assumptions = []string{
 		"a panic inside ConsensusReactor.Receive only costs the peer its connection (MConnection._recover), as the property allows; it is counted, not reported",
 		"allocating an empty vote set for a catch-up round (HeightVoteSet.AddVote, at most two per peer ID, before the vote is validated) counts as an effect the message may legitimately have; the bound of two is checked",
 		"a failure of handleMsg that only a direct call can trigger (nil Proposal / Vote / Part, which Receive dereferences first) is recorded as latent, not as a violation",
 		"memory exhaustion is judged in a child process whose address space is limited to 8 GiB (a node with that much memory)",
 		"4 validators of equal power, blocks of >= 3 parts (BlockPartSizeBytes = 192), mock application",
+		"the node's own steps after the peer's input are driven by the timeouts the node scheduled itself and by votes of the other three validators signed with their real keys (only votes the target does not hold yet: no equivocation is shown to it); own steps after an input that put the node into recover mode are not followed",
+		"a WAL record the WAL decoder would refuse to read back (a peer message within 79 bytes of the reactor's limit) is counted, not reported: what a restart makes of it belongs to the crash-recovery properties",
 	}
 	o.Trusted = []string{"TLC", "hook H1 (VerifDeliver / VerifPopPeer / VerifReceive execute the bodies of receiveRoutine's select cases and Receive under recover)", "package cluster (synchronous driver)", "the Go instantiation of the lattice values"}
 
@@ -66,7 +75,7 @@ func run(c *core.Ctx) {
 		cfg, gcfg = "PeerInputBig.cfg", "PeerGossipBig.cfg"
 	}
 	// the five model-checking runs are independent: run them side by side
-	var res, asis, gasis, grep, gsim *tlc.Result
+	var res, asis, whatif, gasis, grep, gsim *tlc.Result
 	var twg sync.WaitGroup
 	tl := func(dst **tlc.Result, o tlc.Options) {
 		twg.Add(1)
@@ -79,11 +88,13 @@ func run(c *core.Ctx) {
 	tl(&res, tlc.Options{Module: "PeerInput", Config: cfg, Workers: 1, Timeout: c.MinutesT(3, 15)})
 	// the code as it is: TLC must find a halting input (a lead; the verdict comes from the real code below)
 	tl(&asis, tlc.Options{Module: "PeerInput", Config: "PeerInput_asis.cfg", Workers: 1, Timeout: c.MinutesT(3, 10)})
+	// what if SetRound did not skip existing entries / the WAL encoder had the decoder's bound: TLC must reach both sites
+	tl(&whatif, tlc.Options{Module: "PeerInput", Config: "PeerInput_whatif.cfg", Workers: 1, Timeout: c.MinutesT(3, 10)})
 	tl(&gasis, tlc.Options{Module: "PeerGossip", Config: "PeerGossip_asis.cfg", Workers: 4, Timeout: c.MinutesT(3, 10)})
 	tl(&grep, tlc.Options{Module: "PeerGossip", Config: gcfg, Workers: 4, Timeout: c.MinutesT(3, 15)})
 	tl(&gsim, tlc.Options{Module: "PeerGossip", Config: "PeerGossip_sim.cfg", Workers: 1, Simulate: fmt.Sprintf("num=%d", c.Pick(80, 4000)), Depth: 15, Seed: c.Seed, Timeout: c.MinutesT(3, 10)})
 	twg.Wait()
-	if res == nil || asis == nil || gasis == nil || grep == nil || gsim == nil {
+	if res == nil || asis == nil || whatif == nil || gasis == nil || grep == nil || gsim == nil {
 		return
 	}
 	if res.Violated != "" || !res.Finished {
@@ -98,6 +109,20 @@ func run(c *core.Ctx) {
 	c.SetExtra("model_of_the_pinned_snapshot", fmt.Sprintf("PeerInput with all Fix* = FALSE (the code of snapshot d9527b5): %s", asis.Describe()))
 	if asis.Violated == "" {
 		c.Infra("the as-is model (all Fix* = FALSE) does not violate AlwaysRunning: the specification lost its teeth")
+		return
+	}
+	hazards := map[string]int{}
+	for _, l := range whatif.Lines {
+		var h struct {
+			Hazard string `json:"hazard"`
+		}
+		if json.Unmarshal([]byte(l), &h) == nil && h.Hazard != "" {
+			hazards[h.Hazard]++
+		}
+	}
+	c.SetExtra("what_if_model_sites_of_failure", hazards)
+	if !whatif.Finished || whatif.Violated != "" || hazards["enterNewRound/HeightVoteSet.SetRound"] == 0 || hazards["baseWAL.Write/WALEncoder.Encode"] == 0 {
+		c.Infra("the what-if model (SetRound without its guard, WAL encoder with the decoder's bound) does not reach both sites of failure (%v; %s): the own steps / the size dimension lost their teeth", hazards, whatif.Describe())
 		return
 	}
 	scen, nLeads, err := gossipScenarios(gasis.Lines, gsim.Lines)
@@ -119,6 +144,12 @@ func run(c *core.Ctx) {
 		return
 	}
 	defer os.RemoveAll(base)
+	walBase, err := ioutil.TempDir(walRoot(), "vc16wal")
+	if err != nil {
+		c.Infra("tempdir: %v", err)
+		return
+	}
+	defer os.RemoveAll(walBase)
 	byClass := map[string][]string{}
 	for _, l := range res.Lines {
 		var e struct {
@@ -144,7 +175,7 @@ func run(c *core.Ctx) {
 			c.Infra("write edges: %v", err)
 			return
 		}
-		jobs = append(jobs, job{Kind: "class", Class: cn, Edges: f, Variants: c.Pick(1, 5), NBytes: c.Pick(700, 20000), Idx: i})
+		jobs = append(jobs, job{Kind: "class", Class: cn, Edges: f, Variants: c.Pick(1, 5), NBytes: c.Pick(700, 20000), Idx: i, Follow: c.Pick(64, 32)})
 	}
 	sf := filepath.Join(base, "gossip.json")
 	sb, _ := json.Marshal(scen)
@@ -169,6 +200,9 @@ func run(c *core.Ctx) {
 		}
 		jobs = sel
 	}
+	for i := range jobs {
+		jobs[i].WalDir = walBase
+	}
 	agg := newAggregate()
 	var wg sync.WaitGroup
 	var mu sync.Mutex
@@ -190,8 +224,8 @@ func run(c *core.Ctx) {
 				if len(results) > 0 {
 					json.Unmarshal([]byte(results[0]), &cr)
 				}
-				c.SetExtra("negative_controls", map[string]int{"falsified_stutter_labels_rejected_of_2": cr.StutterOracle, "falsified_accept_labels_rejected_of_1": cr.Conformance})
-				if crash != "" || cr.Infra != "" || cr.StutterOracle != 2 || cr.Conformance != 1 {
+				c.SetExtra("negative_controls", map[string]int{"falsified_stutter_labels_rejected_of_2": cr.StutterOracle, "falsified_accept_labels_rejected_of_1": cr.Conformance, "falsified_own_step_labels_rejected_of_2": cr.OwnOracle})
+				if crash != "" || cr.Infra != "" || cr.StutterOracle != 2 || cr.Conformance != 1 || cr.OwnOracle != 2 {
 					c.Infra("vacuous binding: the negative controls were not all rejected (%+v, %s)", cr, crash)
 				}
 				return
@@ -265,6 +299,8 @@ type aggregate struct {
 	hits         map[string][]hit
 	latent       map[string]int
 	byEff        map[string]int
+	byOwn        map[string]int
+	secs         map[string]float64
 	live         map[string]uint64
 	classes      int
 	tot          jobResult
@@ -273,7 +309,7 @@ type aggregate struct {
 }
 
 func newAggregate() *aggregate {
-	return &aggregate{hits: map[string][]hit{}, latent: map[string]int{}, byEff: map[string]int{}, live: map[string]uint64{}, times: map[string]float64{}}
+	return &aggregate{hits: map[string][]hit{}, latent: map[string]int{}, byEff: map[string]int{}, byOwn: map[string]int{}, secs: map[string]float64{}, live: map[string]uint64{}, times: map[string]float64{}}
 }
 
 func (a *aggregate) add(c *core.Ctx, jr *jobResult) {
@@ -309,6 +345,21 @@ func (a *aggregate) add(c *core.Ctx, jr *jobResult) {
 	t.AsIsAgree += jr.AsIsAgree
 	t.WALEntries += jr.WALEntries
 	t.WALTooBig += jr.WALTooBig
+	t.WALUnread += jr.WALUnread
+	t.WALPredBig += jr.WALPredBig
+	t.BigMsgs += jr.BigMsgs
+	t.FollowUps += jr.FollowUps
+	t.FollowStrict += jr.FollowStrict
+	t.FollowBlocked += jr.FollowBlocked
+	t.OwnSteps += jr.OwnSteps
+	t.OwnCompared += jr.OwnCompared
+	t.GuardOver += jr.GuardOver
+	for k, v := range jr.ByOwn {
+		a.byOwn[k] += v
+	}
+	for k, v := range jr.Secs {
+		a.secs[k] += v
+	}
 	if jr.WALMaxBytes > t.WALMaxBytes {
 		t.WALMaxBytes = jr.WALMaxBytes
 	}
@@ -399,7 +450,7 @@ func (a *aggregate) report(c *core.Ctx) {
 	o := c.Out()
 	t := a.tot
 	o.Traces += t.Edges
-	o.Evaluations += t.Deliveries + t.Bytes
+	o.Evaluations += t.Deliveries + t.Bytes + t.OwnSteps
 	o.Distinct += t.Edges
 	c.SetExtra("deliveries", t.Deliveries)
 	c.SetExtra("reached_handleMsg_through_the_reactor", t.Forwarded)
@@ -412,9 +463,19 @@ func (a *aggregate) report(c *core.Ctx) {
 	c.SetExtra("by_model_effect", a.byEff)
 	c.SetExtra("latent_state_machine_failures_masked_by_the_reactor", a.latent)
 	c.SetExtra("snapshot_model_predicted_state_machine_failures", map[string]int{"predicted": t.AsIsPanic, "observed_on_this_tree": t.AsIsAgree})
-	c.SetExtra("wal_encodings_of_peer_messages", map[string]int{"entries": t.WALEntries, "largest_bytes": t.WALMaxBytes, "above_the_decoders_1MiB_limit": t.WALTooBig})
+	c.SetExtra("real_file_wal_of_the_target", map[string]int{"records_written_and_read_back": t.WALEntries, "largest_record_bytes": t.WALMaxBytes, "records_above_the_decoders_1MiB_limit": t.WALTooBig,
+		"records_the_real_decoder_refused": t.WALUnread, "deliveries_the_model_says_exceed_the_limit": t.WALPredBig})
+	c.SetExtra("deliveries_at_the_reactors_size_limit", t.BigMsgs)
+	c.SetExtra("own_steps_after_peer_input", map[string]interface{}{"follow_ups": t.FollowUps, "from_exactly_modelled_states": t.FollowStrict, "given_up_without_verdict": t.FollowBlocked,
+		"steps_on_the_real_node": t.OwnSteps, "by_step": a.byOwn, "projection_compared_after": t.OwnCompared, "steps_in_which_SetRound_ran_over_an_existing_entry": t.GuardOver})
+	if t.WALEntries == 0 || t.BigMsgs == 0 || t.FollowUps == 0 || t.GuardOver == 0 {
+		if os.Getenv("C16_ONLY") == "" {
+			c.Infra("vacuous binding: WAL records %d, deliveries at the size limit %d, follow-ups %d, SetRound over an existing entry %d", t.WALEntries, t.BigMsgs, t.FollowUps, t.GuardOver)
+		}
+	}
 	c.SetExtra("height_committed_after_the_barrage", a.live)
 	c.SetExtra("job_wall_seconds", a.times)
+	c.SetExtra("class_job_seconds_by_activity", a.secs)
 	keys := make([]string, 0, len(a.hits))
 	for k := range a.hits {
 		keys = append(keys, k)
@@ -448,7 +509,7 @@ func (a *aggregate) report(c *core.Ctx) {
 		if anyPeer {
 			who = "any peer (no valid signature needed)"
 		}
-		if rep.Kind == "liveness" || rep.Kind == "process-death" {
+		if rep.Kind == "liveness" || rep.Kind == "process-death" || (rep.Msg == nil && (rep.Kind == "halt-later" || rep.Kind == "stall")) {
 			who = "see record"
 		}
 		desc := fmt.Sprintf("%s in state class(es) %s; sender: %s; %s", rep.Kind, strings.Join(cl, ","), who, firstLine(rep.Detail))
